@@ -49,6 +49,8 @@ class KaniUnit:
             os.makedirs(tdir, exist_ok=True)
             cmd = ["cargo", "kani", "--target-dir", tdir, "-Z", "function-contracts", "-Z", "stubbing"]
             cmd += self.spec.get("flags", [])
+            ht = int(os.environ.get("VERIF_KANI_HARNESS_TIMEOUT", self.spec.get("harness_timeout", 240))) * (4 if tier == "thorough" else 1)
+            cmd += ["-Z", "unstable-options", "--harness-timeout", "%ds" % ht]
             base = list(cmd)
             for h in hs:
                 cmd += ["--harness", h["name"]]
